@@ -447,6 +447,25 @@ func inlineOneCall(module *Module, caller *Function, call StmtCall, callee *Func
 		}
 	}
 
+	// 4b. A by-value aggregate argument (vector, matrix, array, struct) is an SSA value
+	// the caller has already evaluated (typically a Load emitted before the call). The
+	// inlined body must use that very expression: a copy of its Kind in a new slot would
+	// be a second Load, evaluated wherever the body first uses it — after any store the
+	// callee made to the same memory. Map the callee's ExprFunctionArgument straight to
+	// the caller's argument handle; the reserved slot keeps an unreferenced copy.
+	for i := range callee.Expressions {
+		fa, isFuncArg := callee.Expressions[i].Kind.(ExprFunctionArgument)
+		if !isFuncArg || int(fa.Index) >= len(call.Arguments) || !argShouldAlias[fa.Index] {
+			continue
+		}
+		switch module.Types[callee.Arguments[fa.Index].Type].Inner.(type) {
+		case VectorType, MatrixType, ArrayType, StructType:
+			argH := call.Arguments[fa.Index]
+			caller.Expressions[calleeExprMap[i]].Kind = caller.Expressions[argH].Kind
+			calleeExprMap[i] = argH
+		}
+	}
+
 	// 5. Fill in the reserved slots with remapped content.
 	for i := range callee.Expressions {
 		origKind := callee.Expressions[i].Kind
